@@ -1,15 +1,20 @@
 """C17 - Typed encoding and decoding are inverse and route-independent.
 Spec: Reflect (type algebra, ToJ = JSON image of a typed value, FromJ = typed reading of a JSON value in
-ok | err | dc, Is = type selection) over JsonValue; TLC enumerates, per type of a fixed family mirrored by C++
-declarations in harness/c17.cpp, every value over small domains and every JSON input within a fault budget of a
-seed image, and checks the model-internal obligations (round trip, stability, ok => is, named faults => err).
+ok | err | dc, Is = type selection) over JsonValue (+ integers beyond 32 bits as sign and decimal digits, decimal
+fractions); TLC enumerates, per type of a fixed family mirrored by C++ declarations in harness/c17.cpp, every value
+over small domains (integer kinds: their boundary values) and every JSON input within a fault budget of a seed
+image, and checks the model-internal obligations (round trip, stability, ok => is, named faults => err, the two
+tables of integer ranges agree).
 Binding: G (predicted image / value / error replayed through encode_X, decode_X, try_ variants, basic_json + as<T>)."""
-import json, os
+import json, os, random, re, subprocess
 import vf
 
 PROP = 'C17'
-CFG = {'quick': ['gen/MC_C17_q.cfg', 'gen/MC_C17_q2.cfg'], 'thorough': ['gen/MC_C17_t.cfg']}
-NPARTS = 6
+# quick: the 43 types of the first family in three runs (qa, qb, qc: Budget 1), the numeric / N_-flavour types (n: Budget 1), and a
+# selection of both at Budget 2 (q2).  One TLC run has a single initial state and keeps mostly one worker busy, so the runs go in parallel.
+CFG = {'quick': ['gen/MC_C17_qa.cfg', 'gen/MC_C17_qb.cfg', 'gen/MC_C17_qc.cfg', 'gen/MC_C17_n.cfg', 'gen/MC_C17_q2.cfg'],
+       'thorough': ['gen/MC_C17_ta.cfg', 'gen/MC_C17_tb.cfg', 'gen/MC_C17_tc.cfg', 'gen/MC_C17_tn.cfg']}
+NPARTS = 12
 FLAGS = ['-D_GLIBCXX_ASSERTIONS']
 
 
@@ -22,59 +27,110 @@ def sig(r):
             c = {}
     dev = ','.join(sorted(c.get('dev') or []))
     fmt = r.get('fmt', '-')
-    if dev:       # known-deviation classes: coarse signature {dev, what, fmt class} (one root cause = a handful of signatures)
-        return {'dev': dev, 'what': r.get('what', 'crash'), 'fmt': fmt if fmt in ('-', 'ubjson') else 'stream'}
+    if dev:       # known-deviation classes: coarse signature {dev, what, fmt class, via} (one root cause = a handful of signatures)
+        return {'dev': dev, 'what': r.get('what', 'crash'), 'fmt': fmt if fmt in ('-', 'ubjson') else 'stream',
+                'via': 'basic_json' if 'json(v)' in r.get('route', '') else 'direct'}
     # unlisted: fine signature (one VIOLATION line per type / case kind / route / predicted outcome)
     return {'dev': '', 'what': r.get('what', 'crash'), 'fmt': fmt, 'ty': c.get('ty'), 'kind': c.get('k'), 'r': c.get('r', ''),
             'route': r.get('route', '-')}
 
 
+def prepare(tier, cfgs=None):
+    """the 12 translation units and the TLC runs (one initial state each: mostly one busy worker) all at once"""
+    from concurrent.futures import ThreadPoolExecutor
+    cfgs = CFG[tier] if cfgs is None else cfgs
+    with ThreadPoolExecutor(max_workers=NPARTS + len(cfgs)) as ex:
+        fb = {k: ex.submit(vf.build, 'c17_%d' % k, ['c17.cpp'], FLAGS + ['-DC17_PART=%d' % k], opt='-O0') for k in range(NPARTS)}
+        fg = [ex.submit(vf.tlc_gen, 'gen/MC_C17', c, timeout=3000, xmx='6g', workers=4 if tier == 'quick' else 8) for c in cfgs]
+        return {'c17_%d' % k: f.result() for k, f in fb.items()}, [f.result() for f in fg]
+
+
 def binaries():
-    specs = [dict(name='c17_%d' % k, sources=['c17.cpp'], flags=FLAGS + ['-DC17_PART=%d' % k], opt='-O0') for k in range(NPARTS)]
-    return vf.build_many(specs)
-
-
-def gens(tier):
-    return [vf.tlc_gen('gen/MC_C17', c, timeout=3000) for c in CFG[tier]]
+    return prepare('quick', cfgs=[])[0]
 
 
 def setup():
-    binaries()
-    gens('quick')
+    prepare('quick')
+
+
+TY_RE = re.compile(r'"ty":"(\w+)"')
+
+
+def split_cases(bins, g):
+    """one case file per binary: the cases of the types it instantiates (`--types`), out of every generated file.
+    A generated type that no binary instantiates is an infrastructure error (the C++ family must mirror MC_C17!Family)."""
+    owner = {}
+    for k in range(NPARTS):
+        for t in subprocess.run([bins['c17_%d' % k], '--types'], stdout=subprocess.PIPE, text=True, check=True).stdout.split():
+            owner[t] = k
+    d = vf.ensure(os.path.join(vf.WORK, 'run'))
+    tag = '%d-%d' % (os.getpid(), random.randrange(10**9))
+    paths = [os.path.join(d, 'c17-%s-part%d.ndjson' % (tag, k)) for k in range(NPARTS)]
+    files = [open(p, 'w') for p in paths]
+    counts = [0] * NPARTS
+    for path, meta in g:
+        with open(path) as fh:
+            for line in fh:
+                m = TY_RE.search(line)
+                k = owner.get(m.group(1)) if m else None
+                if k is None:
+                    raise vf.InfraError('generated case of a type that harness/c17.cpp does not instantiate: %s' % line[:200])
+                files[k].write(line)
+                counts[k] += 1
+    for f in files:
+        f.close()
+    return paths, counts
 
 
 def run(tier):
+    from concurrent.futures import ThreadPoolExecutor
     rep = vf.Report(PROP, tier)
-    bins = binaries()
-    g = gens(tier)
+    bins, g = prepare(tier)
     totals = {}
     for path, meta in g:
         rep.add_tlc(meta)
+    paths, counts = split_cases(bins, g)
+    try:
+        total = max(1, sum(counts))
+        with ThreadPoolExecutor(max_workers=NPARTS) as ex:     # all binaries at once, shards in proportion to the cases of each
+            futs = [ex.submit(vf.run_shards, bins['c17_%d' % k], paths[k], nshards=max(1, min(vf.NCPU, round(3 * vf.NCPU * counts[k] / total))),
+                              timeout=3000) for k in range(NPARTS)]
+            allrecs = [f.result() for f in futs]
         for k in range(NPARTS):
-            b = bins['c17_%d' % k]
-            recs = vf.run_shards(b, path)
-            vf.g_triage(rep, b, recs, sig, totals=totals, max_repro=120)
+            vf.g_triage(rep, bins['c17_%d' % k], allrecs[k], sig, totals=totals, max_repro=120)
+    finally:
+        for p in paths:
+            try:
+                os.unlink(p)
+            except OSError:
+                pass
     cov = rep.coverage
     cov['traces_validated_against_impl'] = totals.get('cases', 0)
     cov['evaluations'] = totals.get('checks', 0)
     cov['distinct_nontrivial'] = totals.get('cases', 0)
     cov['exhaustive'] = True
-    cov['rule'] = ('for each of the 43 types of MC_C17!Family (scalars, sequence / associative containers, std::array, optional, smart '
-                   'pointers, tuple, pair, variants, enums, classes declared with the N_/ALL_ MEMBER, CTOR_GETTER, GETTER_SETTER, _NAME and TPL_ '
-                   'trait macros with mandatory and optional members, nested classes, polymorphic pointers, bitsets, chrono seconds): (val) every '
-                   'value over the value universe UV; (inp) every JSON document reachable from the image of a seed value (universe US) by at most '
-                   'Budget faults (node replaced by a Pool document, element dropped/appended, member dropped, undeclared member added, omitted '
-                   'optional member supplied); one case = one distinct (type, value) or (type, document); each case is replayed in JSON, CBOR, '
-                   'MessagePack, UBJSON, BSON (object-rooted types) through encode_X/decode_X, try_encode_X/try_decode_X, basic_json(v), as<T>, '
-                   'try_as<T>, with members in ascending and descending order')
+    cov['rule'] = ('for each of the 80 types of MC_C17!Family (scalars incl. 8/16/32/64 bit signed and unsigned integers, float, double; sequence / '
+                   'associative containers, std::array, optional, smart pointers, tuple, pair, variants, enums; classes declared with the N_/ALL_ '
+                   'MEMBER, CTOR_GETTER, GETTER_SETTER, _NAME and TPL_ trait macros - every flavour that has an N_ form with a class holding mandatory '
+                   'and optional members (integer with default, vector, optional<double>, 64 bit member); nested classes, polymorphic pointers, '
+                   'bitsets, chrono seconds): (val) every value over the value universe UV (integer kinds: smallest, -1, 0, largest, for uint64_t '
+                   'also INT64_MAX and INT64_MAX+1; floating point 0.5, -2.25, 0.1 (double only)); (inp) every JSON document reachable from the image '
+                   'of a seed value (universe US) by at most Budget faults (node replaced by a Pool document, number replaced by the extreme values of '
+                   'its kind / the nearest integers outside its range / a fraction, element dropped/appended, member dropped, undeclared member '
+                   'added, omitted optional member supplied); one case = one distinct (type, value) or (type, document); each case is replayed in '
+                   'JSON, CBOR, MessagePack, UBJSON, BSON (object-rooted types, integers within int64_t) through encode_X/decode_X, '
+                   'try_encode_X/try_decode_X, basic_json(v), as<T>, try_as<T>, with members in ascending and descending order')
     cov['bounds'] = {c: open(os.path.join(vf.SPEC, c)).read().split('CONSTANTS')[1].split() for c in CFG[tier]}
     cov['samples'] = vf.sample_lines(g[0][0], 2) + [json.loads(l) for l in open(g[0][0]) if '"inp"' in l][:2]
     rep.assumptions += ['types outside the fixed family are not decided (DESIGN 5/C17)',
                         'declared dont-care readings (never compared): lenient scalar conversions documented in json/as.md (number<->number, '
-                        'bool->integer, numeric strings, anything->std::string via dump), out-of-range integers, surplus tuple/pair/array elements, '
+                        'bool->integer, numeric strings, anything->std::string via dump; integer<->floating point, a double that float cannot represent), '
+                        'integers outside the range of the target type (json/as.md examples (2),(5) show wrap-around), an integer outside both int64_t and '
+                        'uint64_t offered to a variant, surplus tuple/pair/array elements, '
                         'non-canonical integer keys, null for a polymorphic pointer, a variant/polymorphic alternative selected by is() that then '
                         'fails to convert, non-canonical base16 text for bitsets',
-                        'floating point members are outside the model; wide-character and stream overloads are not exercised',
+                        'floating point values are limited to a few decimal fractions (exact in float, plus 0.1 for double); integer keys of maps are '
+                        '32 bit; wide-character and stream overloads are not exercised; BSON is exercised only for documents whose integers fit int64_t',
                         'an error is "reported" when the call throws a jsoncons::json_exception or returns an error result; try_ variants that throw '
                         'a json_exception are counted as reporting the error']
     return rep.finish(dict(harness='c17'))
